@@ -285,7 +285,15 @@ func rulePileAdd(c *Ctx, rule string) {
 	}
 	key := "pals.(*Piler).Add/"
 	// both orientations
+	inTable := false
+	if len(lookups) == 1 {
+		if ps := tableOfKeys(lookups[0].Index); len(ps) == 2 && ps[0][0] != nil && ps[0][1] != nil && ps[0][0] != ps[0][1] && ps[0][0] == ps[1][1] && ps[0][1] == ps[1][0] {
+			inTable = true
+		}
+	}
 	switch {
+	case inTable:
+		c.ok(rule, key+"duplicate-lookup-both-orientations", lookups[0].Pos(), "the pair is looked up in a loop over a table holding it as (A,B) and as (B,A)")
 	case len(lookups) >= 2 && lookups[0].pair[0] != nil && lookups[1].pair[0] != nil && lookups[0].pair[0] != lookups[0].pair[1] && lookups[0].pair[0] == lookups[1].pair[1] && lookups[0].pair[1] == lookups[1].pair[0]:
 		c.ok(rule, key+"duplicate-lookup-both-orientations", lookups[0].Pos(), "the pair is looked up as (A,B) and as (B,A) through a helper that builds the key from its two arguments")
 	case len(lookups) >= 2 && lookups[0].Index != lookups[1].Index && swappedKeys(lookups[0].Index, lookups[1].Index):
@@ -364,6 +372,19 @@ func rulePileAdd(c *Ctx, rule string) {
 	okBefore := len(merges) > 0
 	for _, m := range merges {
 		for _, l := range lookups {
+			if inTable {
+				// the look-up loop is over before the first merge: its head dominates the merge and the merge is outside it
+				var lp *ssaLoop
+				for _, cand := range naturalLoops(add) {
+					if cand.body[l.Block()] {
+						lp = cand
+					}
+				}
+				if lp == nil || lp.body[m.Block()] || !lp.head.Dominates(m.Block()) {
+					okBefore = false
+				}
+				continue
+			}
 			if !(l.Block().Dominates(m.Block()) && (l.Block() != m.Block() || instrIndex(l.Block(), l.Instruction) < instrIndex(m.Block(), m))) {
 				okBefore = false
 			}
@@ -504,6 +525,107 @@ func pairLookupWrapper(g *ssa.Function, pkg *ssa.Package) (int, int) {
 		}
 	}
 	return -1, -1
+}
+
+// tableOfKeys: idx is an element of a local table of keys that a loop ranges over
+// (for _, k := range [...][2]sf{ab, {b, a}}): the two halves of each entry.
+func tableOfKeys(idx ssa.Value) (pairs [][2]ssa.Value) {
+	var ea *ssa.IndexAddr
+	var arr *ssa.Alloc
+	switch x := idx.(type) {
+	case *ssa.UnOp: // *(&table[i])
+		if x.Op != token.MUL {
+			return nil
+		}
+		e, ok := x.X.(*ssa.IndexAddr)
+		if !ok {
+			return nil
+		}
+		ea = e
+		arr, _ = e.X.(*ssa.Alloc)
+	case *ssa.Index: // (*table)[i]
+		if l, ok := x.X.(*ssa.UnOp); ok && l.Op == token.MUL {
+			arr, _ = l.X.(*ssa.Alloc)
+		}
+	}
+	if arr == nil {
+		return nil
+	}
+	outer, ok := arr.Type().Underlying().(*types.Pointer).Elem().Underlying().(*types.Array)
+	if !ok {
+		return nil
+	}
+	if _, ok := outer.Elem().Underlying().(*types.Array); !ok {
+		return nil
+	}
+	norm := func(v ssa.Value) ssa.Value {
+		if l, ok := v.(*ssa.UnOp); ok && l.Op == token.MUL {
+			if al, ok := l.X.(*ssa.Alloc); ok {
+				return al
+			}
+		}
+		return v
+	}
+	halves := func(al *ssa.Alloc) (a, b ssa.Value) {
+		for _, r := range *al.Referrers() {
+			ia, ok := r.(*ssa.IndexAddr)
+			if !ok {
+				continue
+			}
+			i, ok := constIntVal(ia.Index)
+			if !ok {
+				continue
+			}
+			for _, rr := range *ia.Referrers() {
+				if st, ok := rr.(*ssa.Store); ok {
+					if i == 0 {
+						a = norm(st.Val)
+					} else if i == 1 {
+						b = norm(st.Val)
+					}
+				}
+			}
+		}
+		return
+	}
+	entries := map[int64][2]ssa.Value{}
+	for _, r := range *arr.Referrers() {
+		ia, ok := r.(*ssa.IndexAddr)
+		if !ok || ia == ea {
+			continue
+		}
+		i, ok := constIntVal(ia.Index)
+		if !ok {
+			continue
+		}
+		e := entries[i]
+		for _, rr := range *ia.Referrers() {
+			switch x := rr.(type) {
+			case *ssa.Store:
+				// the whole entry copied from a local key
+				if l, ok := x.Val.(*ssa.UnOp); ok && l.Op == token.MUL {
+					if src, ok := l.X.(*ssa.Alloc); ok {
+						e[0], e[1] = halves(src)
+					}
+				}
+			case *ssa.IndexAddr:
+				j, ok := constIntVal(x.Index)
+				if !ok || j < 0 || j > 1 {
+					continue
+				}
+				for _, r3 := range *x.Referrers() {
+					if st, ok := r3.(*ssa.Store); ok {
+						e[j] = norm(st.Val)
+					}
+				}
+			}
+		}
+		entries[i] = e
+	}
+	for i := int64(0); i < int64(len(entries)); i++ {
+		pairs = append(pairs, entries[i])
+	}
+	return pairs
 }
 
 func swappedKeys(k1, k2 ssa.Value) bool {
